@@ -245,6 +245,7 @@ fn text_family(o: &mut Out, r: &mut Rng, th: bool) {
 pub fn gen_c08(o: &mut Out, tier: &str, seed: u64) {
     let mut r = Rng::new(seed, "c08");
     let th = tier == "thorough";
+    range_context_family(o, &mut r, th);
     decode_family(o, &mut r, th);
     extract_family(o, &mut r, th);
     text_family(o, &mut r, th);
@@ -343,9 +344,40 @@ fn range_untrusted(o: &mut Out, r: &mut Rng, th: bool) {
     }
 }
 
+/// the 264-byte context of the batched range proofs as an encoding of (commitments, bit lengths): canonical contexts
+/// of every commitment count, and every way of being non-canonical (a non-zero byte anywhere in either padding, a
+/// zero or over-large bit length, an undecodable or identity commitment, a gap)
+fn range_context_family(o: &mut Out, r: &mut Rng, th: bool) {
+    for k in 0..=8usize {
+        for _ in 0..(if th { 4 } else { 1 }) {
+            let mut v = vec![0u8; 264];
+            for i in 0..k { v[32 * i..32 * i + 32].copy_from_slice(&valid_point(r)); v[256 + i] = 1 + r.below(64) as u8; }
+            o.op("decode.rctx.canonical", &format!("decode rctx {}", hex(&v)));
+            // one non-zero byte in the unused part of the bit lengths / of the commitments
+            for i in k..8 {
+                let mut m = v.clone(); m[256 + i] = *r.pick(&[1u8, 32, 64, 255]);
+                o.op("decode.rctx.bit-length-padding", &format!("decode rctx {}", hex(&m)));
+                let mut m = v.clone(); let pos = 32 * i + r.below(32) as usize; m[pos] = 1 + r.below(255) as u8;
+                o.op("decode.rctx.commitment-padding", &format!("decode rctx {}", hex(&m)));
+            }
+            // a used bit length that is zero / 65 / 128 / 255; a used commitment that is undecodable / the identity
+            for i in 0..k {
+                for bad in [0u8, 65, 128, 255] { let mut m = v.clone(); m[256 + i] = bad; o.op("decode.rctx.bit-length-value", &format!("decode rctx {}", hex(&m))); }
+                let mut m = v.clone(); for x in m[32 * i..32 * i + 32].iter_mut() { *x = 0xff; }
+                o.op("decode.rctx.commitment-undecodable", &format!("decode rctx {}", hex(&m)));
+                let mut m = v.clone(); for x in m[32 * i..32 * i + 32].iter_mut() { *x = 0; }
+                o.op("decode.rctx.commitment-gap", &format!("decode rctx {}", hex(&m)));
+            }
+        }
+    }
+    for len in [0usize, 1, 263, 265, 528] { o.op("decode.rctx.length", &format!("decode rctx {}", hex(&r.bytes(len)))); }
+    for _ in 0..(if th { 50 } else { 5 }) { o.op("decode.rctx.random", &format!("decode rctx {}", hex(&r.bytes(264)))); }
+}
+
 pub fn gen_c12(o: &mut Out, tier: &str, seed: u64) {
     let mut r = Rng::new(seed, "c12");
     let th = tier == "thorough";
+    range_context_family(o, &mut r, th);
     decode_family(o, &mut r, th);
     extract_family(o, &mut r, th);
     text_family(o, &mut r, th);
@@ -428,6 +460,27 @@ pub fn gen_c11(o: &mut Out, tier: &str, seed: u64) {
             }
             for s in scalars(&mut r) {
                 o.op("ct.mul", &format!("elg op ct mul {} {}", a, hs(&s)));
+            }
+        }
+        // multiplication by every power of two and its neighbours (shortcut paths are keyed on such values), each type,
+        // both operand orders (the harness evaluates both and all ownership variants)
+        {
+            let (x, rr) = (Scalar::from(amount(&mut r)), rand_scalar(&mut r));
+            let c = commit(&x, &rr);
+            let ctx = format!("{}{}", hp(&c), hp(&(rr * k.p)));
+            let mut muls: Vec<Scalar> = vec![];
+            let mut p2 = Scalar::ONE;
+            for kbit in 0..253 {
+                if th || kbit <= 66 || kbit % 8 == 0 || kbit >= 250 { muls.push(p2); }
+                if [8, 15, 16, 31, 32, 48, 63, 64, 128, 252].contains(&kbit) { muls.push(p2 - Scalar::ONE); muls.push(p2 + Scalar::ONE); muls.push(-p2); }
+                p2 = p2 + p2;
+            }
+            for m in [3u64, 10, 100, 255, 10_000, 65_535, 1_000_000] { muls.push(Scalar::from(m)); }
+            for sc in muls.iter() {
+                o.op("ct.mul.power-of-two", &format!("elg op ct mul {} {}", ctx, hs(sc)));
+                o.op("cmt.mul.power-of-two", &format!("elg op cmt mul {} {}", hp(&c), hs(sc)));
+                o.op("hdl.mul.power-of-two", &format!("elg op hdl mul {} {}", hp(&(rr * k.p)), hs(sc)));
+                o.op("opn.mul.power-of-two", &format!("elg op opn mul {} {}", hs(&rr), hs(sc)));
             }
         }
         // operands related to each other: same commitment / same handle / one the negation of the other /
@@ -603,6 +656,19 @@ pub fn gen_c13(o: &mut Out, tier: &str, seed: u64) {
             }
         }
         o.op("related-keys.sequence", &format!("ae seq {}", toks.join(" ")));
+        // a tampered copy (nonce, body or tag bit) rejected just before: the genuine ciphertext still opens
+        let mut toks = vec![];
+        let g = format!("{}:{}", hex(&k0), hex(&cts[0]));
+        toks.push(g.clone());
+        for byte in [0usize, 5, 11, 12, 15, 19, 20, 27, 35] {
+            let mut m = cts[0].clone(); m[byte] ^= 1 << (byte % 8);
+            toks.push(format!("{}:{}", hex(&k0), hex(&m)));
+            toks.push(g.clone());
+        }
+        // the same tampered copy twice, then genuine twice
+        let mut m = cts[0].clone(); m[3] ^= 0x10;
+        for t in [hex(&m), hex(&m), hex(&cts[0]), hex(&cts[0])] { toks.push(format!("{}:{}", hex(&k0), t)); }
+        o.op("tampered-then-genuine.sequence", &format!("ae seq {}", toks.join(" ")));
     }
     // every single-bit flip of sampled ciphertexts; other keys
     for _ in 0..(if th { 40 } else { 4 }) {
@@ -651,7 +717,7 @@ pub fn gen_c14(o: &mut Out, tier: &str, seed: u64) {
         }
         for _ in 0..n { let l = 32 + r.below(64) as usize; o.op("seed", &format!("kdf {} seed {}", ty, hex(&r.bytes(l)))); }
         // recording signer: message = prefix || public seed ; all-zero signature refused
-        for plen in [0usize, 1, 32, 33, 200] {
+        for plen in [0usize, 1, 32, 33, 200, 65535, 65536, 65537, 70000, 131072] {
             let ps = r.bytes(plen);
             o.op("signer", &format!("kdf {} signer {} {}", ty, hex(&r.bytes(64)), hex(&ps)));
             o.op_exp("signer.zero-signature", "err", &format!("kdf {} signer {} {}", ty, hex(&[0u8; 64]), hex(&ps)));
@@ -660,6 +726,9 @@ pub fn gen_c14(o: &mut Out, tier: &str, seed: u64) {
         for _ in 0..(if th { 100 } else { 6 }) {
             let l = r.below(40) as usize;
             o.op("keypair", &format!("kdf {} keypair {} {}", ty, hex(&r.bytes(32)), hex(&r.bytes(l))));
+        }
+        for l in [65535usize, 65536, 100_000] {
+            o.op("keypair.long-public-seed", &format!("kdf {} keypair {} {}", ty, hex(&r.bytes(32)), hex(&r.bytes(l))));
         }
         // seed phrases / passphrases incl. edge whitespace, empty, unicode
         let phrases = ["abandon abandon abandon abandon abandon abandon abandon abandon abandon abandon abandon about",
